@@ -94,8 +94,66 @@ void vf_harness(void)
                            "count": 1, "expect": r"assertion"}])
 
 
+def unit_factories():
+    """the range handed to a factory is the range of the structure it returns: the third parameter must be installed before ranges are converted to scales"""
+    CA = "src/Covariances/CovAniso.cpp"
+    pre = """
+#define nullptr 0
+#define messerr(...) ((void)0)
+int nondet_int(); bool nondet_bool(); double nondet_double();
+struct VectorDouble { int n; VectorDouble() : n(0) {} int size() const { return n; } bool empty() const { return n <= 0; } };
+struct MatrixSquareSymmetric { int n; int getNSize() const { return n; } };
+struct ECov { int v; };
+struct CovContext { int nvar, ndim; int getNVar() const { return nvar; } int getNDim() const { return ndim; } };
+bool __CPROVER_uninterpreted_hasparam(int);
+int g_bad_order, g_ranges_set, g_scales_set, g_param_set, g_sill_set;
+/* contract of CovAniso as the factories use it (CovAniso.cpp): setRanges / setRangeIsotropic divide the range by scadef(type, CURRENT third parameter) to get the
+   scale; setParam installs the parameter without rescaling.  So a range set before the parameter is converted with the wrong factor. */
+class CovAniso { public: int _type; bool _paramSet;
+  CovAniso(const ECov& type, const CovContext& ctxt) : _type(type.v), _paramSet(false) {}
+  CovAniso(const ECov& type, double range, double param, double sill, const CovContext& ctxt, bool flagRange) : _type(type.v), _paramSet(true) { g_ranges_set = 1; g_param_set = 1; g_sill_set = 1; }
+  void setParam(double p) { _paramSet = true; g_param_set = 1; }
+  void setRanges(const VectorDouble& r) { if (!_paramSet && __CPROVER_uninterpreted_hasparam(_type)) g_bad_order = 1; g_ranges_set = 1; }
+  void setRangeIsotropic(double r) { if (!_paramSet && __CPROVER_uninterpreted_hasparam(_type)) g_bad_order = 1; g_ranges_set = 1; }
+  void setScales(const VectorDouble& r) { g_scales_set = 1; } void setScale(double r) { g_scales_set = 1; }
+  void setSill(double s) { g_sill_set = 1; } void setSill(const MatrixSquareSymmetric& s) { g_sill_set = 1; }
+  void setAnisoAngles(const VectorDouble& a) {}
+  static CovAniso* createIsotropic(const CovContext& ctxt, const ECov& type, double range, double sill, double param, bool flagRange);
+  static CovAniso* createAnisotropic(const CovContext& ctxt, const ECov& type, const VectorDouble& ranges, double sill, double param, const VectorDouble& angles, bool flagRange);
+  static CovAniso* createIsotropicMulti(const CovContext& ctxt, const ECov& type, double range, const MatrixSquareSymmetric& sills, double param, bool flagRange);
+  static CovAniso* createAnisotropicMulti(const CovContext& ctxt, const ECov& type, const VectorDouble& ranges, const MatrixSquareSymmetric& sills, double param, const VectorDouble& angles, bool flagRange); };
+"""
+    fns = [Fn("CovAniso::createIsotropic", CA, r"^CovAniso\* CovAniso::createIsotropic\(const CovContext &ctxt,[^{]*?bool flagRange\)\s*$"),
+           Fn("CovAniso::createAnisotropic", CA, r"^CovAniso\* CovAniso::createAnisotropic\(const CovContext &ctxt,[^{]*?bool flagRange\)\s*$"),
+           Fn("CovAniso::createIsotropicMulti", CA, r"^CovAniso\* CovAniso::createIsotropicMulti\(const CovContext &ctxt,[^{]*?bool flagRange\)\s*$"),
+           Fn("CovAniso::createAnisotropicMulti", CA, r"^CovAniso\* CovAniso::createAnisotropicMulti\(const CovContext &ctxt,[^{]*?bool flagRange\)\s*$")]
+    h = """
+void vf_harness()
+{
+  CovContext ctxt; ctxt.nvar = nondet_int(); ctxt.ndim = nondet_int(); ECov type; type.v = nondet_int();
+  VectorDouble ranges, angles; ranges.n = nondet_int(); angles.n = nondet_int(); MatrixSquareSymmetric sills; sills.n = nondet_int();
+  bool flagRange = nondet_bool(); int which = nondet_int();
+  g_bad_order = 0; g_ranges_set = 0; g_scales_set = 0; g_param_set = 0; g_sill_set = 0;
+  CovAniso* c = 0;
+  if (which == 0) c = CovAniso::createIsotropic(ctxt, type, nondet_double(), nondet_double(), nondet_double(), flagRange);
+  else if (which == 1) c = CovAniso::createAnisotropic(ctxt, type, ranges, nondet_double(), nondet_double(), angles, flagRange);
+  else if (which == 2) c = CovAniso::createIsotropicMulti(ctxt, type, nondet_double(), sills, nondet_double(), flagRange);
+  else c = CovAniso::createAnisotropicMulti(ctxt, type, ranges, sills, nondet_double(), angles, flagRange);
+  __CPROVER_assert(!g_bad_order, "the third parameter is installed before a range is converted into a scale (otherwise the structure returned does not have the requested range)");
+  __CPROVER_assert(c == 0 || (g_param_set && g_sill_set && (g_ranges_set || g_scales_set)), "a structure that is returned has received its parameter, its sill and its range or scale");
+  VF_REACH();
+}
+"""
+    return Unit("C03.CovAniso.factories", fns, mode="cpp", prelude=pre, harness=h, unwind=2, checks=[], backends=("minisat", "cadical"), timeout=300,
+                ignore=r"delete argument must be dynamic object|double delete",
+                claim=("CovAniso::createIsotropic / createAnisotropic / createIsotropicMulti / createAnisotropicMulti: whatever the structure type, the third parameter is "
+                       "installed before any range is converted into a scale, and a structure that is returned has received parameter, sill and range (or scale)"),
+                assumptions=["Route X; CovAniso enters through a typestate stub derived from CovAniso.cpp (setRanges / setRangeIsotropic use scadef(type, current parameter); setParam does not rescale)"],
+                canaries=[{"fn": "CovAniso::createAnisotropicMulti", "rx": r"cov->setSill\(sills\);", "rp": ";", "expect": r"assertion"}])
+
+
 def units(tier):
-    return [unit_struct(n) for n in STRUCTS] + [unit_closed(n) for n in CLOSED]
+    return [unit_factories()] + [unit_struct(n) for n in STRUCTS] + [unit_closed(n) for n in CLOSED]
 
 
 META = {
